@@ -568,7 +568,7 @@ impl Vm {
                 Constant::Unit(u) => out.push_str(&format!("u{u}")),
                 Constant::Boolean(b) => out.push_str(if *b { "bT" } else { "bF" }),
                 Constant::String(s) => out.push_str(&format!("s\"{s}\"")),
-                Constant::FunctionReference(FunctionReference::Normal(n)) => {
+                Constant::FunctionReference(FunctionReference::Normal(n, _)) => {
                     out.push_str(&format!("f{n}"))
                 }
                 Constant::FunctionReference(FunctionReference::Foreign(n)) => {
@@ -1083,9 +1083,7 @@ impl Vm {
 
                     let callable = self.pop();
                     match callable.unsafe_as_function_reference() {
-                        FunctionReference::Normal(ref name) => {
-                            let function_idx = self.get_function_idx(name) as usize;
-
+                        FunctionReference::Normal(_, function_idx) => {
                             // TODO: unify code with 'Op::Call'?
                             self.frames.push(CallFrame {
                                 function_idx,
